@@ -64,6 +64,10 @@ type Op struct {
 	N       uint64      `json:"n,omitempty"`     // applied: advance by n; compact: move the first index forward by n
 	Start   uint64      `json:"start,omitempty"` // query/replicate: requested index
 	MaxSize uint64      `json:"max_size,omitempty"`
+	// replicate: the leader table moves on WHILE the stream is being produced - right after message number MidAt (1-based) has been
+	// sent, Entries are appended to the log and the applied index advances by N (the call still answers for the applied index it
+	// read when it started; the terminating empty batch may carry a newer one)
+	MidAt int `json:"mid_at,omitempty"`
 }
 
 type Case struct {
@@ -188,8 +192,9 @@ func (f fakeTables) CreateTable(string) (table.Table, error) { return table.Tabl
 func (f fakeTables) DeleteTable(string) error                { return errors.New("n/a") }
 
 type fakeStream struct {
-	ctx  context.Context
-	msgs []*regattapb.ReplicateResponse
+	ctx    context.Context
+	msgs   []*regattapb.ReplicateResponse
+	onSent func(n int) // called after the n-th message was taken over
 }
 
 func (s *fakeStream) Send(m *regattapb.ReplicateResponse) error {
@@ -197,6 +202,9 @@ func (s *fakeStream) Send(m *regattapb.ReplicateResponse) error {
 	cp := &regattapb.ReplicateResponse{}
 	_ = cp.UnmarshalVT(b)
 	s.msgs = append(s.msgs, cp)
+	if s.onSent != nil {
+		s.onSent(len(s.msgs))
+	}
 	return nil
 }
 func (s *fakeStream) SetHeader(metadata.MD) error  { return nil }
@@ -274,7 +282,24 @@ func genCase(t *rapid.T) Case {
 			if kind == "query" && start > applied+1 {
 				start = applied + 1
 			}
-			c.Ops = append(c.Ops, Op{Kind: kind, Start: start, MaxSize: rapid.SampledFrom(maxSizes).Draw(t, "maxsize")})
+			op := Op{Kind: kind, Start: start, MaxSize: rapid.SampledFrom(maxSizes).Draw(t, "maxsize")}
+			if kind == "replicate" && start >= marker+1 && start <= applied && rapid.IntRange(0, 2).Draw(t, "mid") == 0 {
+				// writes are applied on the leader while this call streams
+				op.MidAt = rapid.IntRange(1, 3).Draw(t, "mid.at")
+				op.MaxSize = rapid.SampledFrom([]uint64{1, 64, 300, 1000}).Draw(t, "mid.maxsize") // several messages
+				cnt := rapid.IntRange(1, 4).Draw(t, "mid.n")
+				for j := 0; j < cnt; j++ {
+					es := EntrySpec{Type: rapid.SampledFrom([]int{1, 1, 1, 0, 2}).Draw(t, "mid.etype")}
+					if es.Type != 0 {
+						es.Size = rapid.SampledFrom([]int{0, 10, 200}).Draw(t, "mid.esize")
+					}
+					op.Entries = append(op.Entries, es)
+				}
+				op.N = uint64(rapid.IntRange(1, 8).Draw(t, "mid.applied"))
+				n += uint64(cnt)
+				applied = min(marker+n, applied+op.N)
+			}
+			c.Ops = append(c.Ops, op)
 		}
 	}
 	return c
@@ -380,6 +405,10 @@ func run(c Case, o *vt.Obs) *vt.Failure {
 			if f := checkReplicate(l, ls, "Cached", i, op); f != nil {
 				return f
 			}
+			if op.MidAt > 0 {
+				o.Label("replicate-while-the-leader-applies-writes")
+			}
+			op.MidAt = 0 // the change has happened; the second server answers for the new state
 			ls2 := regattaserver.NewLogServer(fakeTables{l}, simple, zap.NewNop(), op.MaxSize)
 			if f := checkReplicate(l, ls2, "Simple", i, op); f != nil {
 				return f
@@ -409,7 +438,26 @@ func run(c Case, o *vt.Obs) *vt.Failure {
 
 func checkReplicate(l *mlog, ls *regattaserver.LogServer, who string, stepNo int, op Op) *vt.Failure {
 	st := &fakeStream{ctx: context.Background()}
+	atCall := l.applied // "the leader's applied index at the time of the call"
+	first0 := l.first()
+	moved := op.MidAt == 0
+	move := func() {
+		if moved {
+			return
+		}
+		moved = true
+		for _, s := range op.Entries {
+			l.entries = append(l.entries, mkEntry(l.last()+1, s))
+		}
+		l.applied = min(l.last(), l.applied+op.N)
+	}
+	st.onSent = func(n int) {
+		if n == op.MidAt {
+			move()
+		}
+	}
 	err := ls.Replicate(&regattapb.ReplicateRequest{Table: []byte("t"), LeaderIndex: op.Start}, st)
+	move() // a stream shorter than MidAt messages: the writes land right after the call
 	if op.Start == 0 {
 		if status.Code(err) != codes.InvalidArgument {
 			return vt.Failf(prop+"/replicate-zero-index", stepNo, "%s: leader index 0: err %v", who, err)
@@ -424,12 +472,12 @@ func checkReplicate(l *mlog, ls *regattaserver.LogServer, who string, stepNo int
 		return er != nil && er.Error == e
 	}
 	switch {
-	case op.Start > l.applied+1:
+	case op.Start > atCall+1:
 		if len(st.msgs) != 1 || !isErr(st.msgs[0], regattapb.ReplicateError_LEADER_BEHIND) {
-			return vt.Failf(prop+"/replicate-leader-behind", stepNo, "%s: request %d beyond applied+1 (%d): %d messages %v; want LEADER_BEHIND", who, op.Start, l.applied+1, len(st.msgs), st.msgs)
+			return vt.Failf(prop+"/replicate-leader-behind", stepNo, "%s: request %d beyond applied+1 (%d): %d messages %v; want LEADER_BEHIND", who, op.Start, atCall+1, len(st.msgs), st.msgs)
 		}
 		return nil
-	case op.Start < l.first():
+	case op.Start < first0:
 		if len(st.msgs) != 1 || !isErr(st.msgs[0], regattapb.ReplicateError_USE_SNAPSHOT) {
 			return vt.Failf(prop+"/replicate-use-snapshot", stepNo, "%s: request %d is compacted (first %d): %d messages %v; want USE_SNAPSHOT", who, op.Start, l.first(), len(st.msgs), st.msgs)
 		}
@@ -446,8 +494,8 @@ func checkReplicate(l *mlog, ls *regattaserver.LogServer, who string, stepNo int
 			if mi != len(st.msgs)-1 {
 				return vt.Failf(prop+"/replicate-empty-batch-midstream", stepNo, "%s: empty batch at message %d of %d", who, mi, len(st.msgs))
 			}
-			if m.LeaderIndex != l.applied {
-				return vt.Failf(prop+"/replicate-empty-batch-index", stepNo, "%s: empty batch carries leader index %d, applied is %d", who, m.LeaderIndex, l.applied)
+			if m.LeaderIndex < atCall || m.LeaderIndex > l.applied {
+				return vt.Failf(prop+"/replicate-empty-batch-index", stepNo, "%s: empty batch carries leader index %d, applied was %d at the call and is %d now", who, m.LeaderIndex, atCall, l.applied)
 			}
 			continue
 		}
@@ -458,8 +506,8 @@ func checkReplicate(l *mlog, ls *regattaserver.LogServer, who string, stepNo int
 			if rc.LeaderIndex != next {
 				return vt.Failf(prop+"/replicate-gap-or-repeat", stepNo, "%s: streamed command labelled %d, expected %d (request %d)", who, rc.LeaderIndex, next, op.Start)
 			}
-			if next > l.applied {
-				return vt.Failf(prop+"/replicate-beyond-applied", stepNo, "%s: streamed index %d beyond applied %d", who, next, l.applied)
+			if next > atCall {
+				return vt.Failf(prop+"/replicate-beyond-applied", stepNo, "%s: streamed index %d beyond the applied index at the time of the call (%d; the table has moved on to %d meanwhile)", who, next, atCall, l.applied)
 			}
 			if rc.Command.LeaderIndex == nil || *rc.Command.LeaderIndex != next {
 				return vt.Failf(prop+"/replicate-label", stepNo, "%s: command at %d carries leader_index %v", who, next, rc.Command.LeaderIndex)
@@ -482,12 +530,12 @@ func checkReplicate(l *mlog, ls *regattaserver.LogServer, who string, stepNo int
 			next++
 		}
 	}
-	if next != l.applied+1 {
-		return vt.Failf(prop+"/replicate-incomplete", stepNo, "%s: request %d: stream ended at %d, applied is %d (no concurrent change)", who, op.Start, next-1, l.applied)
+	if next != atCall+1 {
+		return vt.Failf(prop+"/replicate-incomplete", stepNo, "%s: request %d: stream ended at %d, applied was %d at the time of the call", who, op.Start, next-1, atCall)
 	}
-	if op.Start == l.applied+1 {
-		if len(st.msgs) != 1 || st.msgs[0].GetCommandsResponse() != nil || st.msgs[0].LeaderIndex != l.applied {
-			return vt.Failf(prop+"/replicate-at-applied+1", stepNo, "%s: request at applied+1: messages %v; want one empty batch carrying %d", who, st.msgs, l.applied)
+	if op.Start == atCall+1 {
+		if len(st.msgs) != 1 || st.msgs[0].GetCommandsResponse() != nil || st.msgs[0].LeaderIndex != atCall {
+			return vt.Failf(prop+"/replicate-at-applied+1", stepNo, "%s: request at applied+1: messages %v; want one empty batch carrying %d", who, st.msgs, atCall)
 		}
 	} else if len(st.msgs) == 0 || st.msgs[len(st.msgs)-1].GetCommandsResponse() != nil {
 		return vt.Failf(prop+"/replicate-no-terminator", stepNo, "%s: stream does not end with the empty batch carrying the applied index", who)
